@@ -217,6 +217,12 @@ def concretise(beh, consts, rng, *, f=None, emb=None, vt=None, store=None, segme
     f = f if f is not None else rng.choice([1, 1, 3, 25])
     emb = emb or rng.choice(EMBEDDINGS_QUICK)
     vt = vt or rng.choice(["tiny", "tiny", "edge", "ovf", "empty"])
+    # keep one script below ~100 MB of values: 300 KiB values ("huge") only in small groups, 64 KiB ones ("big") in
+    # medium groups (a full write of 3 x 400 huge members would be 360 MB and minutes per step under load)
+    if vt == "huge":
+        f = min(f, 25)
+    elif vt == "big":
+        f = min(f, 60)
     store = dict(store if store is not None else rng.choice(STORE_CFGS))
     store["rollback"] = bool(consts["RollbackOn"])
     store["max_rollback_log_len"] = int(consts["MaxLog"])
